@@ -228,6 +228,20 @@ def bounded(tier, seed):
             viol('duration %r' % (td,), '%r parses back to %r' % (txt, back), 'duration(str(d)) == d')
         if len(samples) < 4 and us and s and y:
             samples.append(dict(duration=str(td), text=txt))
+    # sub-second durations: every microsecond count 0..2999 and seeded 6-digit values (a fraction must parse back digit for digit, not through a float)
+    for us in list(range(0, 3000)) + [rng.randint(0, 999999) for _ in range(2000 if tier == 'quick' else 20000)]:
+        for secs in (0, 59):
+            td = datetime.timedelta(seconds=secs, microseconds=us)
+            ev += 1
+            distinct.add(('us', secs, us))
+            try:
+                txt = str(times.duration(td))
+                back = times.duration(txt).timedelta
+                ok = back == td
+            except Exception as e:
+                txt, ok, back = '?', False, '%s: %s' % (type(e).__name__, e)
+            if not ok:
+                viol('duration %r' % (td,), '%r parses back to %r' % (txt, back), 'duration(str(d)) == d')
     # timestamps: UTC default rendering and full zone names around every DST transition
     zones = sorted(zoneinfo.available_timezones())
     if tier == 'quick':
@@ -253,7 +267,8 @@ def bounded(tier, seed):
                         lo = mid
                     else:
                         hi = mid
-                for dlt in (-3600, -1, -0.001, 0, 0.001, 1, 1799, 3600):
+                # (-0.0004: a sub-millisecond fraction that rounds up INTO the transition second)
+                for dlt in (-3600, -1, -0.001, -0.0004, 0, 0.001, 1, 1799, 3600):
                     insts.append(hi + dlt)
                 last = off
                 if tier == 'quick' and len(insts) > 30:
